@@ -79,6 +79,20 @@ theorem set_absent (s : MemStore) (now : Nat) (k : Key) (r : Record) (h : r.head
   have : r.header.cas > 0 := by omega
   simp [set, this, hl, stamp, satSucc]
 
+/-- the three shapes of a `set` result -/
+theorem set_self_cases' (s : MemStore) (now : Nat) (k : Key) (r : Record) :
+    s.set now k r = (s, .error .keyExists)
+    ∨ s.set now k r = ({ mem := s.mem.insert k (stamp r s.casId now), casId := s.casId + 1 }, .ok s.casId)
+    ∨ s.set now k r = ({ s with mem := s.mem.insert k (stamp r (satSucc r.header.cas) now) }, .ok (satSucc r.header.cas)) := by
+  by_cases h0 : r.header.cas = 0
+  · right; left; exact set_cas0 s now k r h0
+  · cases hl : s.mem.lookup k with
+    | none => right; right; exact set_absent s now k r h0 hl
+    | some old =>
+      by_cases hm : old.header.cas = r.header.cas
+      · right; left; exact set_match s now k r old h0 hl hm
+      · left; exact set_mismatch s now k r old h0 hl hm
+
 theorem set_casId_le (s : MemStore) (now : Nat) (k : Key) (r : Record) : s.casId ≤ (s.set now k r).1.casId := by
   unfold set
   split
